@@ -44,10 +44,13 @@ def corrupt_content(run):
     """an accepted reopen of a damaged image: content digest changed to one that is at no sync point"""
     if run[0].get("framing") != "header":
         return None
-    for hist, img, e in _pairs(run):
-        if e["outcome"] == "ok" and img["kind"] != "intact" and _vouched(hist, img, e["content"]):
-            e["content"] = {"len": e["content"]["len"], "h": [e["content"]["h"][0] ^ 1, e["content"]["h"][1]]}
-            return _mini(run, hist, img, e)
+    # prefer a damaged image that was accepted; on a tree where every damaged image is refused
+    # (MmapVec / ZReorderMap after their fixes) fall back to an undamaged one
+    for want_damaged in (True, False):
+        for hist, img, e in _pairs(run):
+            if e["outcome"] == "ok" and (img["kind"] != "intact") == want_damaged and _vouched(hist, img, e["content"]):
+                e["content"] = {"len": e["content"]["len"], "h": [e["content"]["h"][0] ^ 1, e["content"]["h"][1]]}
+                return _mini(run, hist, img, e)
     return None
 
 
